@@ -68,9 +68,10 @@ def correspond(ctx, cases, fields, stream, canon=None, timeout_ms=4000, skip=Non
 def strip_version(case, b):
     v = case.get("version")
     if v:
-        key = "%s|%s" % (case["root"]["name"], v["name"])
-        b["values"].pop(key, None)
-        b["sbu"].pop(key, None)
+        for nm in [v["name"]] + ([v["again"]["name"]] if v.get("again") else []):
+            key = "%s|%s" % (case["root"]["name"], nm)
+            b["values"].pop(key, None)
+            b["sbu"].pop(key, None)
 
 
 def accepted(o):
@@ -645,12 +646,35 @@ def check_C03(ctx):
                 for k_ in range(n):
                     line += rng.choice([["-a"], ["-b"], ["-c"], ["-ab"], ["-o", "v"], ["-cab"]]) if "-o" in sp else rng.choice([["-a"], ["-b"], ["-c"], ["-ab"], ["-cab"]])
                 many.append({"op": "run", "env": {}, "version": None, "root": gen.mkcmd("app", decls=copy.deepcopy(cd), spec=sp, policy=0), "argv": line + tail})
+    # (5) many DIFFERENT options on a rejected line, each a separate atom of the spec: the configurations (state, what is left
+    # of the block of adjacent options) are as many as the subsets of the options given -- the memory of D10 cannot help.
+    # Up to 18-20 different options the library answers within the deadline; beyond that it does not: known finding K3.
+    letters5 = "abcdefgijklmnopqrstuvwxy"
+    for n in (10, 14, 18, 22):
+        kd5 = [gen.mkopt("bool", ch, **{"def": ["false"]}) for ch in letters5[:n]] + [gen.mkarg("strings", "X")]
+        for sp, tail in ((" ".join("[-%s]" % ch for ch in letters5[:n]), ["-Z"]), (" ".join("[-%s]" % ch for ch in letters5[:n]) + " X", ["x", "y"])):
+            if n == 22 and tail != ["-Z"]:
+                continue
+            many.append({"op": "run", "env": {}, "version": None, "root": gen.mkcmd("app", decls=copy.deepcopy(kd5), spec=sp, policy=0),
+                         "argv": ["-" + ch for ch in letters5[:n]] + tail, "_distinct": n})
+    kd6 = [gen.mkopt("bool", ch, **{"def": ["false"]}) for ch in "abcdef"]
+    for per in (3, 4, 7):
+        many.append({"op": "run", "env": {}, "version": None, "root": gen.mkcmd("app", decls=copy.deepcopy(kd6), spec="(-a | -b | -c | -d | -e | -f)...", policy=0),
+                     "argv": ["-" + ch for _ in range(per) for ch in "abcdef"] + ["-Z"], "_distinct": 6, "_occ": 6 * per})
     number(many, start=10 ** 6)
     mres = core.run_impl(many, timeout_ms=10000)
+    k3 = [r for kind_, prop_, r in core.known_findings() if kind_ == "known" and prop_ == "C03" and "id=K3" in r]
     for c in many:
         ctx.count(c)
         oc = core.obs_impl(mres[c["id"]])["outcome"]
         if oc[0] in ("timeout", "died", "stackoverflow", "crash"):
+            # K3: no answer in time, on a line giving at least 20 different options that are separate atoms of the spec, or
+            # at least 40 occurrences of 6 different options under an explicit repeated choice -- and nothing else
+            if oc[0] == "timeout" and k3 and (c.get("_distinct", 0) >= 20 or (c.get("_distinct", 0) >= 6 and c.get("_occ", 0) >= 40)):
+                line = "id=K3 no answer within 10 s on a rejected line with many different options as separate atoms (spec %r..., %d tokens)" % (c["root"]["spec"][:40], len(c["argv"]))
+                if not any(k.startswith("id=K3") for k in ctx.known):
+                    ctx.known.append(line)
+                continue
             ctx.violation("liveness", "spec %r, command line of %d tokens %r...: %s" %
                           (c["root"]["spec"], len(c["argv"]), c["argv"][:12],
                            "no answer within 10 s" if oc[0] == "timeout" else "ends with %r" % (oc,)), case=c, impl=list(oc))
